@@ -200,6 +200,15 @@ class Program:
                     modname = modname[: -len(".__init__")]
                     is_pkg = True
                 self._add_module(modname, path, rel, is_pkg, trusted=False)
+        # overlay files that do not exist on disk (in-memory control modules)
+        loaded = {m.relpath for m in self.modules.values()}
+        for rel in sorted(self.overlay):
+            if rel in loaded or not rel.endswith(".py") \
+                    or not rel.startswith(self.package + os.sep):
+                continue
+            modname = rel[:-3].replace(os.sep, ".")
+            self._add_module(modname, os.path.join(self.repo_root, rel), rel,
+                             False, trusted=False)
         for modname, rel in TRUSTED_MODULES.items():
             path = os.path.join(SITE, rel)
             if not os.path.exists(path):
